@@ -18,7 +18,7 @@ RULE = (
     "go to a fresh temp dir. write_hif/read_hif (all classes) and write_json/read_json (undirected, string-castable "
     "labels) must give back class, nodes, edges, members or tail/head and all three attribute levels; the edge-list, "
     "bipartite edge-list (also dual) and incidence-matrix text formats must give back the same incidences under the "
-    "documented casts (int, float for float node labels next to int edge IDs, explicit str, or none), down to 1x1 / 1xm / nx1 matrices; HIF and JSON collections (list and dict) read back key by key. "
+    "documented casts (int, float for float node labels next to int edge IDs, explicit str, or none; the HIF and JSON readers also under str / float casts chosen independently for nodes and edges), down to 1x1 / 1xm / nx1 matrices; HIF and JSON collections (list and dict) read back key by key. "
     "non-trivial = the file has >=2 records and (HIF/JSON) an attribute, isolated node or empty edge"
 )
 BUDGET = {"quick": 900, "thorough": 25000}
@@ -44,7 +44,9 @@ def cases(draw, tier):
     shape = draw(st.sampled_from([None, None, [1, 1], [1, 3], [3, 1], [2, 2]]))
     return {"spec": spec, "other": other, "text": txt, "delim": draw(st.sampled_from(DELIMS)), "shape": shape, "explicit_str": draw(st.booleans()),
             "coll": draw(st.sampled_from(["list", "dict"])), "cname": draw(st.sampled_from(["", "c", "my_set"])),
-            "encoding": draw(st.sampled_from([None, None, "utf-8", "latin-1"])), "awkward": draw(st.integers(0, 3)) == 0, "default_delim": draw(st.integers(0, 5)) == 0}
+            "encoding": draw(st.sampled_from([None, None, "utf-8", "latin-1"])), "awkward": draw(st.integers(0, 3)) == 0,
+            # casts asked of the HIF / JSON readers for nodes and for edges, independently (None = reader default)
+            "casts": [draw(st.sampled_from([None, None, "str", "float"])), draw(st.sampled_from([None, None, "str", "float"]))], "default_delim": draw(st.integers(0, 5)) == 0}
 
 
 def strategy(tier):
@@ -57,6 +59,25 @@ def attempt(ctx, name, f):
     except Exception as e:  # noqa: BLE001   an in-domain network must be written and read without error
         ctx.fail(("file", name, "raised", type(e).__name__), "%r" % (e,))
         return False, None
+
+
+def resolve_cast(name, labels):
+    """the cast to pass for this label set (None when it is not applicable: float needs numbers, str must stay injective)"""
+    labels = list(labels)
+    if name == "float" and labels and all(isinstance(x, (int, float, np.integer)) and not isinstance(x, bool) for x in labels):
+        return float
+    if name == "str" and len({str(x) for x in labels}) == len(labels):
+        return str
+    return None
+
+
+def full_cast(H, nc, ec):
+    """full(H) with the node labels mapped through nc and the edge IDs through ec"""
+    f = full(H)
+    nc = nc or (lambda x: x)
+    ec = ec or (lambda x: x)
+    inc_ = {(nc(t[0]), ec(t[1])) + tuple(t[2:]) for t in f[3]}
+    return (f[0], {nc(n): a for n, a in f[1].items()}, {ec(e): a for e, a in f[2].items()}, inc_, {ec(e) for e in f[4]}, f[5])
 
 
 def json_nettype(H):
@@ -90,6 +111,14 @@ def _run(case, ctx, tmp):
     if ok:
         d = full_diff(full(R), full(H))
         ctx.check(not d, ("file", "hif", "+".join(d), cls), lambda: "got %r expected %r" % (full(R), full(H)))
+    cn, ce = case.get("casts") or [None, None]
+    nc, ec = resolve_cast(cn, nodes), resolve_cast(ce, edges)
+    if nc is not None or ec is not None:
+        ok, R = attempt(ctx, "hif-casts", lambda: xgi.read_hif(p, nodetype=nc, edgetype=ec))
+        if ok:
+            want = full_cast(H, nc, ec)
+            d = full_diff(full(R), want)
+            ctx.check(not d, ("file", "hif-casts", "+".join(d), cls), lambda: "nodetype %r edgetype %r: got %r expected %r" % (nc, ec, full(R), want))
     # ---- HIF collection (list keys become positions, dict keys are kept)
     cdir = os.path.join(tmp, "coll")
     os.makedirs(cdir)
@@ -103,6 +132,18 @@ def _run(case, ctx, tmp):
             if k in R:
                 d = full_diff(full(R[k]), full(exp[k]))
                 ctx.check(not d, ("file", "hif_collection", "+".join(d)), lambda: "key %r: got %r expected %r" % (k, full(R[k]), full(exp[k])))
+        # the same collection read under casts (applicable to every member)
+        onodes, oedges = list(O.nodes), list(O.edges)
+        nc2 = nc if nc is not None and resolve_cast(cn, onodes) is nc else None
+        ec2 = ec if ec is not None and resolve_cast(ce, oedges) is ec else None
+        if nc2 is not None or ec2 is not None:
+            ok, R = attempt(ctx, "hif_collection-casts", lambda: xgi.read_hif_collection(os.path.join(cdir, cname + "_collection_information.json"), nodetype=nc2, edgetype=ec2))
+            if ok:
+                for k in exp:
+                    if k in R:
+                        want = full_cast(exp[k], nc2, ec2)
+                        d = full_diff(full(R[k]), want)
+                        ctx.check(not d, ("file", "hif_collection-casts", "+".join(d)), lambda: "key %r nodetype %r edgetype %r: got %r expected %r" % (k, nc2, ec2, full(R[k]), want))
     # ---- JSON (deprecated writer): undirected hypergraphs whose labels survive the string cast
     if cls == "H":
         nt, et = json_nettype(H)
@@ -112,6 +153,14 @@ def _run(case, ctx, tmp):
             if ok:
                 d = full_diff(full(R), full(H))
                 ctx.check(not d, ("file", "json", "+".join(d)), lambda: "got %r expected %r" % (full(R), full(H)))
+            # other documented casts of the JSON reader: float for numeric labels (1 -> 1.0, the same key)
+            ntf = float if (cn == "float" and nt is int) else nt
+            etf = float if (ce == "float" and et is int) else et
+            if (ntf, etf) != (nt, et):
+                ok, R = attempt(ctx, "json-float-casts", lambda: xgi.read_json(p, nodetype=ntf, edgetype=etf))
+                if ok:
+                    d = full_diff(full(R), full(H))
+                    ctx.check(not d, ("file", "json-float-casts", "+".join(d)), lambda: "nodetype %r edgetype %r: got %r expected %r" % (ntf, etf, full(R), full(H)))
             O2 = nets.build(case["text"])
             nt2, et2 = json_nettype(O2)
             if (nt2, et2) == (nt, et):
